@@ -115,15 +115,51 @@ func remedyOf(c Config, r string) config.ScopedRemedy {
 	}
 }
 
+func goid() uint64 {
+	var buf [64]byte
+	n := runtime.Stack(buf[:], false)
+	var id uint64
+	for _, c := range buf[len("goroutine "):n] { // "goroutine 123 [running]:"
+		if c < '0' || c > '9' {
+			break
+		}
+		id = id*10 + uint64(c-'0')
+	}
+	return id
+}
+
+// gateClock is the mock clock with one addition: the goroutine named in `hold` is parked inside its next Now() call - AFTER
+// the reading was taken - until it is released.  That is a request descheduled right after it looked at the clock: code that
+// reads the clock under the lock that protects the window state keeps everybody else out meanwhile; code that reads it
+// before taking that lock lets the others run with later readings and then continues with its stale one.
+type gateClock struct {
+	*clock.MockClock
+	hold    atomic.Uint64
+	parked  chan struct{}
+	release chan struct{}
+}
+
+func (c *gateClock) Now() time.Time {
+	t := c.MockClock.Now()
+	if g := c.hold.Load(); g != 0 && goid() == g && c.hold.CompareAndSwap(g, 0) {
+		close(c.parked)
+		<-c.release
+	}
+	return t
+}
+
+func (c *gateClock) Since(t time.Time) time.Duration { return c.Now().Sub(t) }
+func (c *gateClock) Until(t time.Time) time.Duration { return t.Sub(c.Now()) }
+
 type runner struct {
 	cfg    Config
-	clk    *clock.MockClock
+	clk    *gateClock
 	plugin *remedies.StrategyBasedThrottlingPlugin
 	rem    map[string]config.ScopedRemedy
 }
 
 func (rn *runner) fresh(now int64) {
-	rn.clk = clock.NewMockClock()
+	rn.clk = &gateClock{MockClock: clock.NewMockClock()}
 	rn.clk.Set(at(now))
 	state := limit.NewRateLimitState(rn.clk, logging.ContextLogger{})
 	p, err := remedies.NewStrategyBasedThrottlingPlugin(context.Background(), rn.clk, nil, state,
@@ -139,8 +175,12 @@ func (rn *runner) request(r, g string) string {
 	if status == 0 {
 		status = 429
 	}
+	hdrs := map[string]string{header: g}
+	if g == "-" { // the request does not carry the grouping header at all
+		hdrs = map[string]string{}
+	}
 	a, err := rn.plugin.OnRequest(lunarMessages.OnRequest{
-		ID: "t", Method: "GET", URL: "api.test/x", Headers: map[string]string{header: g},
+		ID: "t", Method: "GET", URL: "api.test/x", Headers: hdrs,
 	}, rn.rem[r])
 	if err != nil {
 		return "error:" + err.Error()
@@ -311,6 +351,58 @@ func main() {
 						tr.Add(vh.Ev{"ev": "adv", "d": e.D})
 					}
 					wg.Wait()
+				case "straddle":
+					// request A of (r, g) is parked right after its first look at the clock; the clock moves on by d; n further
+					// requests of the same key are made one after the other; A is released when they are through or, if they
+					// cannot get through while A is parked (A holds the state's lock), after a short wait; then n more requests.
+					rn.clk.parked, rn.clk.release = make(chan struct{}), make(chan struct{})
+					id++
+					aid := id
+					adone := make(chan struct{})
+					ab := tr.Stamp()
+					go func() {
+						defer close(adone)
+						rn.clk.hold.Store(goid())
+						out := rn.request(e.R, e.G)
+						rn.clk.hold.Store(0)
+						tr.AddAt(ab, vh.Ev{"ev": "begin", "id": aid, "r": e.R, "g": e.G, "out": out})
+						tr.Add(vh.Ev{"ev": "end", "id": aid})
+					}()
+					select {
+					case <-rn.clk.parked:
+					case <-adone: // never looked at the clock
+					case <-time.After(5 * time.Second):
+						vh.Die("straddle: request neither parked nor returned")
+					}
+					now += e.D
+					rn.clk.Set(at(now))
+					tr.Add(vh.Ev{"ev": "adv", "d": e.D})
+					others := make(chan struct{})
+					go func() {
+						defer close(others)
+						for i := 0; i < e.N; i++ {
+							id++
+							oid := id
+							b := tr.Stamp()
+							out := rn.request(e.R, e.G)
+							tr.AddAt(b, vh.Ev{"ev": "begin", "id": oid, "r": e.R, "g": e.G, "out": out})
+							tr.Add(vh.Ev{"ev": "end", "id": oid})
+						}
+					}()
+					select {
+					case <-others:
+					case <-time.After(150 * time.Millisecond):
+					}
+					close(rn.clk.release)
+					<-adone
+					<-others
+					passes := 0
+					for i := 0; i < e.N; i++ {
+						if rn.request(e.R, e.G) == "pass" {
+							passes++
+						}
+					}
+					tr.Add(vh.Ev{"ev": "batch", "kind": "burst", "r": e.R, "g": e.G, "n": e.N, "passes": passes})
 				case "conc":
 					var wg sync.WaitGroup
 					start := make(chan struct{})
